@@ -5,9 +5,7 @@ package eng
 import (
 	"fmt"
 	"go/token"
-	"go/types"
 	"regexp"
-	"strings"
 
 	"golang.org/x/tools/go/ssa"
 )
@@ -15,66 +13,6 @@ import (
 var reCycle = regexp.MustCompile(`cycle\([^()]*(\([^()]*\))?[^()]*\)`)
 
 func normT(t *Term) string { return reCycle.ReplaceAllString(t.String(), "cycle(*)") }
-
-type windowInfo struct {
-	f       *ssa.Function
-	call    *ssa.Call // the per-step validator call
-	I       *ssa.Phi
-	ind     *Induction
-	bound   ssa.Value
-	cond    *ssa.BinOp
-	header  *ssa.BasicBlock
-	ctrArg  ssa.Value
-	ctrBase *Term
-	form    string // "plus" (c + conv(i)) or "split" (i<0 ? c - conv(-i) : c + conv(i)) or "offset"
-	// offset form: i runs 0..2*s and the step counter is (centre - s) + i
-	sizeVal ssa.Value // the window size s when the loop bound is 2*s
-}
-
-// offsetForm recognises "for i := 0; i <= 2*s; i++ { … (centre - s) + i … }" and returns s and the centre.
-func offsetForm(tb *TB, wi *windowInfo) (size ssa.Value, centre *Term, ok bool) {
-	if wi.bound == nil || len(wi.ind.Inits) != 1 || !isConstInt(wi.ind.Inits[0], 0) || wi.ind.Step != 1 {
-		return nil, nil, false
-	}
-	b := stripConv(wi.bound)
-	bo, isB := b.(*ssa.BinOp)
-	if !isB {
-		return nil, nil, false
-	}
-	switch {
-	case bo.Op == token.MUL && isConstInt(bo.X, 2):
-		size = bo.Y
-	case bo.Op == token.MUL && isConstInt(bo.Y, 2):
-		size = bo.X
-	case bo.Op == token.ADD && tb.Of(bo.X).String() == tb.Of(bo.Y).String():
-		size = bo.X
-	case bo.Op == token.SHL && isConstInt(bo.Y, 1):
-		size = bo.X
-	default:
-		return nil, nil, false
-	}
-	st := tb.Of(size).String()
-	I := tb.Of(wi.I).String()
-	ct := tb.Of(wi.ctrArg)
-	// (centre - s) + i   in either operand order, conversions of s/i to the counter type allowed
-	strip := func(t *Term) *Term {
-		for t.Op == "conv" {
-			t = t.Args[0]
-		}
-		return t
-	}
-	if ct.Op != "bin" || ct.Sym != "+" {
-		return nil, nil, false
-	}
-	for k := 0; k < 2; k++ {
-		a, bb := ct.Args[k], ct.Args[1-k]
-		if strip(a).String() == I && bb.Op == "bin" && bb.Sym == "-" && strip(bb.Args[1]).String() == strip(tb.Of(size)).String() && !bb.Args[0].ContainsStr(I) {
-			_ = st
-			return size, bb.Args[0], true
-		}
-	}
-	return nil, nil, false
-}
 
 func stripConv(v ssa.Value) ssa.Value {
 	for {
@@ -86,278 +24,6 @@ func stripConv(v ssa.Value) ssa.Value {
 		default:
 			return v
 		}
-	}
-}
-
-// findWindow locates the window loop of a validation entry point: the single loop that contains the
-// single call of a per-step validator.
-func findWindow(c *Check, w *World, tb *TB, pfx string, f *ssa.Function, isStep func(*ssa.Call) bool) *windowInfo {
-	fn := FuncName(f)
-	var calls []*ssa.Call
-	EachInstr(f, func(in ssa.Instruction) {
-		if cl, ok := in.(*ssa.Call); ok && isStep(cl) {
-			calls = append(calls, cl)
-		}
-	})
-	if len(calls) != 1 {
-		c.Unk(pfx+".2", fn, "window-loop", fmt.Sprintf("%d per-step validation calls in the entry point, expected exactly one inside the window loop", len(calls)), w.Pos(f.Pos()))
-		return nil
-	}
-	call := calls[0]
-	if !InLoop(call.Block()) {
-		c.Bad(pfx+".2", fn, "window-loop", "the per-step validation is not inside a loop: the window size has no effect", w.InstrPos(call))
-		return nil
-	}
-	// the counter argument: the uint64-typed argument
-	var ctr ssa.Value
-	for _, a := range call.Call.Args {
-		if b, ok := a.Type().Underlying().(*types.Basic); ok && b.Kind() == types.Uint64 {
-			ctr = a
-		}
-	}
-	if ctr == nil {
-		c.Unk(pfx+".3", fn, "counter-argument", "the per-step validator takes no uint64 counter", w.InstrPos(call))
-		return nil
-	}
-	// induction phis of loops enclosing the call
-	var cands []*ssa.Phi
-	for _, b := range f.Blocks {
-		if !b.Dominates(call.Block()) {
-			continue
-		}
-		for _, in := range b.Instrs {
-			ph, ok := in.(*ssa.Phi)
-			if !ok {
-				break
-			}
-			if InductionOf(ph) != nil {
-				cands = append(cands, ph)
-			}
-		}
-	}
-	if len(cands) != 1 {
-		c.Unk(pfx+".2", fn, "window-loop", fmt.Sprintf("%d loop counters enclose the per-step validation, expected exactly one (i = -s … +s)", len(cands)), w.InstrPos(call))
-		return nil
-	}
-	wi := &windowInfo{f: f, call: call, I: cands[0], ind: InductionOf(cands[0]), header: cands[0].Block(), ctrArg: ctr}
-	iff, ok := wi.header.Instrs[len(wi.header.Instrs)-1].(*ssa.If)
-	if !ok {
-		c.Unk(pfx+".2", fn, "window-loop", "the loop header does not test the loop counter", w.InstrPos(call))
-		return nil
-	}
-	bo, ok := iff.Cond.(*ssa.BinOp)
-	if !ok {
-		c.Unk(pfx+".2", fn, "window-loop", "the loop condition is not a comparison", w.InstrPos(iff))
-		return nil
-	}
-	wi.cond = bo
-	if bo.X == ssa.Value(wi.I) {
-		wi.bound = bo.Y
-	} else if bo.Y == ssa.Value(wi.I) {
-		wi.bound = bo.X
-	}
-	return wi
-}
-
-// checkWindow applies the window rules. wantBase: expected term of the centre counter (nil: any term
-// independent of the loop counter); needGuard: an underflow guard is required (caller-supplied counter).
-func checkWindow(c *Check, w *World, tb *TB, iv *IV, pfx string, wi *windowInfo, wantBase string, needGuard bool) {
-	f := wi.f
-	fn := FuncName(f)
-	hpos := w.InstrPos(wi.cond)
-	if size, centre, isOff := offsetForm(tb, wi); isOff && !needGuard {
-		// equivalent idiom: the window [centre-s, centre+s] walked upwards from its lower edge (mod 2^64)
-		op := wi.cond.Op
-		if wi.cond.Y == ssa.Value(wi.I) {
-			op = flipOp(op)
-		}
-		c.Decide(op == token.LEQ && wi.header.Succs[0].Dominates(wi.call.Block()), pfx+".2", fn, "window-loop", "one loop, i from 0 to 2s inclusive in steps of one over (centre - s) + i", "the offset-form window loop does not run while i <= 2s", hpos)
-		it := iv.At(stripConv(size), wi.header)
-		exact := it.Lo != nil && it.Hi != nil && it.Lo.Sign() == 0 && it.Hi.Cmp(bi(10)) == 0
-		c.Decide(exact, pfx+".1", fn, "window-gate", "the window size is within [0,10] at the loop (dominating gate), and nothing narrower", fmt.Sprintf("the window size is %s at the loop, expected exactly [0,10]", it), hpos)
-		wi.sizeVal = size
-		wi.ctrBase = centre
-		wi.form = "offset"
-		okB := wantBase == "" || centre.String() == wantBase || tb.Norm(centre).String() == wantBase
-		c.Decide(okB, pfx+".3", fn, "counter-argument", "step i validates counter (centre - s) + i, centre being the caller's counter / time step", "the window is centred on "+clip(normT(centre), 160)+", expected "+clip(wantBase, 160), w.InstrPos(wi.call))
-		checkAcceptGuard(c, w, tb, pfx, wi)
-		return
-	}
-	// --- .2 loop shape -----------------------------------------------------------------------
-	okLoop := true
-	why := ""
-	switch {
-	case wi.bound == nil:
-		okLoop, why = false, "the loop condition does not compare the loop counter with the window size"
-	case wi.ind.Step != 1:
-		okLoop, why = false, fmt.Sprintf("the loop counter advances by %d per step, not by 1", wi.ind.Step)
-	case len(wi.ind.Inits) != 1:
-		okLoop, why = false, "the loop counter has several initial values"
-	default:
-		// continue while i <= s   (or s >= i)
-		op := wi.cond.Op
-		if wi.cond.Y == ssa.Value(wi.I) {
-			op = flipOp(op)
-		}
-		if op != token.LEQ {
-			okLoop, why = false, "the loop continues while i "+op.String()+" s instead of i <= s: the forward end of the window is wrong"
-		}
-		if !(wi.header.Succs[0].Dominates(wi.call.Block())) {
-			okLoop, why = false, "the per-step validation is not on the continuing edge of the loop test"
-		}
-		initT := tb.Of(wi.ind.Inits[0])
-		want := mk("un", "-", tb.Of(wi.bound))
-		if initT.String() != want.String() {
-			okLoop, why = false, "the loop counter starts at "+clip(normT(initT), 140)+", not at minus the window size: the backward end of the window is wrong"
-		}
-	}
-	c.Decide(okLoop, pfx+".2", fn, "window-loop", "one loop, i from -s to +s inclusive in steps of one, s the gated window size", why, hpos)
-	// --- .1 gate ------------------------------------------------------------------------------
-	if wi.bound != nil {
-		inner := stripConv(wi.bound)
-		it := iv.At(inner, wi.header)
-		exact := it.Lo != nil && it.Hi != nil && it.Lo.Sign() == 0 && it.Hi.Cmp(bi(10)) == 0
-		var whyG string
-		switch {
-		case it.Hi == nil || it.Hi.Cmp(bi(10)) > 0:
-			whyG = fmt.Sprintf("the window size can be %s at the loop: sizes above 10 are not refused (unbounded work, and almost any code becomes acceptable)", it)
-		case it.Hi.Cmp(bi(10)) < 0 || it.Lo == nil || it.Lo.Sign() != 0:
-			whyG = fmt.Sprintf("the window size is restricted to %s, but every size 0..10 must be served", it)
-		}
-		c.Decide(exact, pfx+".1", fn, "window-gate", "the window size is within [0,10] at the loop (dominating gate), and nothing narrower", whyG, hpos)
-		// the conversion of the size to the signed loop type must be lossless
-		if cv, ok := wi.bound.(*ssa.Convert); ok {
-			in := iv.At(cv.X, wi.header)
-			tr := iv.TypeRange(cv.Type())
-			ok2 := in.Lo != nil && in.Hi != nil && tr.Lo != nil && in.Lo.Cmp(tr.Lo) >= 0 && in.Hi.Cmp(tr.Hi) <= 0
-			c.Decide(ok2, pfx+".1", fn, "window-size-conversion", "the gated size fits the loop counter's type", "the window size is converted to "+cv.Type().String()+" with possible wrap-around ("+in.String()+")", w.InstrPos(cv))
-		}
-	}
-	// --- .3 counter argument -----------------------------------------------------------------
-	ct := tb.Of(wi.ctrArg)
-	I := tb.Of(wi.I)
-	Is := I.String()
-	plus := func(t *Term) *Term { // c + conv(uint64; i) in either operand order
-		if t.Op != "bin" || t.Sym != "+" {
-			return nil
-		}
-		for k := 0; k < 2; k++ {
-			a, b := t.Args[k], t.Args[1-k]
-			if a.Op == "conv" && a.Sym == "uint64" && a.Args[0].String() == Is && !b.ContainsStr(Is) {
-				return b
-			}
-		}
-		return nil
-	}
-	minus := func(t *Term) *Term { // c - conv(uint64; -i)
-		if t.Op != "bin" || t.Sym != "-" {
-			return nil
-		}
-		a, b := t.Args[0], t.Args[1]
-		if b.Op == "conv" && b.Sym == "uint64" && b.Args[0].Op == "un" && b.Args[0].Sym == "-" && b.Args[0].Args[0].String() == Is && !a.ContainsStr(Is) {
-			return a
-		}
-		return nil
-	}
-	var base *Term
-	if b := plus(ct); b != nil {
-		base, wi.form = b, "plus"
-	} else if ct.Op == "ite" && ct.Args[0].Op == "bin" && ct.Args[0].Sym == "<" && ct.Args[0].Args[0].String() == Is && ct.Args[0].Args[1].IsConst() && ct.Args[0].Args[1].Sym == "0" {
-		m, p := minus(ct.Args[1]), plus(ct.Args[2])
-		if m != nil && p != nil && m.String() == p.String() {
-			base, wi.form = m, "split"
-		}
-	}
-	if base == nil {
-		if !ct.ContainsStr(Is) {
-			c.Bad(pfx+".3", fn, "counter-argument", "the counter handed to the per-step validation does not depend on the loop counter: every iteration checks the same counter and the window has no effect", w.InstrPos(wi.call))
-		} else {
-			c.Unk(pfx+".3", fn, "counter-argument", "the counter handed to the per-step validation is not centre+i (or centre-(-i) for i<0): "+clip(normT(ct), 220), w.InstrPos(wi.call))
-		}
-	} else {
-		wi.ctrBase = base
-		okB := wantBase == "" || base.String() == wantBase || tb.Norm(base).String() == wantBase
-		c.Decide(okB, pfx+".3", fn, "counter-argument", "step i validates counter centre+i, centre being the caller's counter / time step", "the window is centred on "+clip(normT(base), 160)+", expected "+clip(wantBase, 160), w.InstrPos(wi.call))
-	}
-	// --- .4 underflow guard --------------------------------------------------------------------
-	if needGuard && base != nil {
-		want1 := "bin(<; " + base.String() + "; conv(uint64; un(-; " + Is + ")))"
-		want2 := "bin(>; conv(uint64; un(-; " + Is + ")); " + base.String() + ")"
-		found := false
-		bad := ""
-		for _, b := range f.Blocks {
-			if !wi.header.Dominates(b) || b == wi.header {
-				continue
-			}
-			iff, ok := b.Instrs[len(b.Instrs)-1].(*ssa.If)
-			if !ok {
-				continue
-			}
-			ts := tb.Of(iff.Cond).String()
-			mentionsBase := strings.Contains(ts, base.String()) && strings.Contains(ts, Is) && iff.Block() != wi.call.Block()
-			if ts == want1 || ts == want2 {
-				// true edge must skip the validation, false edge must reach it; only for i < 0
-				skip, cont := b.Succs[0], b.Succs[1]
-				reach := BlocksReachableFrom(skip)
-				neg := false
-				for _, at := range atomsOf(CondsAt(b)) {
-					if at.X == ssa.Value(wi.I) && at.Op == token.LSS {
-						if k, ok := constInt(at.Y); ok && k.Sign() == 0 {
-							neg = true
-						}
-					}
-				}
-				_ = reach
-				if cont.Dominates(wi.call.Block()) || cont == wi.call.Block() || BlocksReachableFrom(cont)[wi.call.Block()] {
-					if !skip.Dominates(wi.call.Block()) && skip != wi.call.Block() && neg {
-						found = true
-					}
-				}
-			} else if mentionsBase && strings.HasPrefix(ts, "bin(") {
-				bad = ts
-			}
-		}
-		switch {
-		case found:
-			c.OK(pfx+".4", fn, "underflow-guard", "a step below zero is skipped exactly when centre < -i, compared unsigned", w.InstrPos(wi.call))
-		case bad != "":
-			c.Bad(pfx+".4", fn, "underflow-guard", "the guard against counters below zero is not the unsigned comparison centre < uint64(-i): "+clip(normT(&Term{Op: "raw", Sym: bad}), 200), w.InstrPos(wi.call))
-		default:
-			c.Bad(pfx+".4", fn, "underflow-guard", "steps below counter zero are not skipped: centre-(-i) wraps around to counters near 2^64", w.InstrPos(wi.call))
-		}
-	}
-	checkAcceptGuard(c, w, tb, pfx, wi)
-}
-
-func checkAcceptGuard(c *Check, w *World, tb *TB, pfx string, wi *windowInfo) {
-	f := wi.f
-	fn := FuncName(f)
-	// --- .5 accept guard -------------------------------------------------------------------------
-	nTrue := 0
-	for i, r := range Returns(f) {
-		if len(r.Results) == 0 {
-			continue
-		}
-		rt := tb.Of(r.Results[0]).String()
-		if rt != "const(true)" && rt != "call(syscall/js.ValueOf; const(true))" {
-			continue
-		}
-		nTrue++
-		okAcc, okErr := false, false
-		for _, cd := range CondsAt(r.Block()) {
-			if ex, ok := cd.V.(*ssa.Extract); ok && ex.Tuple == ssa.Value(wi.call) && ex.Index == 0 && cd.Pos {
-				okAcc = true
-			}
-		}
-		for _, at := range atomsOf(CondsAt(r.Block())) {
-			if ex, ok := at.X.(*ssa.Extract); ok && ex.Tuple == ssa.Value(wi.call) && ex.Index == 1 && at.Op == token.EQL && isNilConst(at.Y) {
-				okErr = true
-			}
-		}
-		c.Decide(okAcc, pfx+".5", fn, fmt.Sprintf("accept-guard#%d", i), "acceptance only under the per-step verdict of that iteration (error checked: "+fmt.Sprint(okErr)+")", "a path returns true without the per-step validation having returned true in that iteration", w.InstrPos(r))
-	}
-	if nTrue == 0 {
-		c.Bad(pfx+".5", fn, "accept-guard", "the entry point never accepts", w.Pos(f.Pos()))
 	}
 }
 
